@@ -370,6 +370,15 @@ def unfetched(v):
     return v is None or type(v).__module__.startswith("cascade.")
 
 
+def _observe(st, spec):
+    """abstraction of the real State for the comparison with the model; a State the harness cannot read (a field changed its
+    type or vanished) is a broken correspondence, not a crash of the run: the run goes on so that the monitors still see it"""
+    try:
+        return {"ctl": digest_state(st, spec), "sch": digest_sch(st)}
+    except Exception as e:
+        return {"unobservable": f"{type(e).__name__}: {e}"[:200]}
+
+
 def digest_state(state, spec):
     from cascade.scheduler.core import DatasetStatus
     sname = {DatasetStatus.preparing: "preparing", DatasetStatus.available: "available"}
@@ -499,7 +508,7 @@ def run_case(spec, ws, seed, fifo, none_output=None, max_rounds=None, alarm_s=60
                 "cands": [un_ds(p[0]) + [un_h(p[1])] for p in a.prep if p[1] != a.worker.host],
                 "prep": sorted(un_ds(p[0]) + [un_h(p[1])] for p in a.prep)} for a in cur["asg"]]
         trace.append({"op": "round", "asg": asg, "events": cur["events"],
-                      "impl": {"ctl": digest_state(st, spec), "cmds": br.cmds, "sch": digest_sch(st)}})
+                      "impl": dict(_observe(st, spec), cmds=br.cmds)})
         cur["asg"] = []
         cur["events"] = []
         br.cmds = []
@@ -511,7 +520,7 @@ def run_case(spec, ws, seed, fifo, none_output=None, max_rounds=None, alarm_s=60
         except Exception as e:
             trace[-1]["impl"] = {"crash": f"{type(e).__name__}: {e}"}
             raise
-        trace[-1]["impl"] = {"ctl": digest_state(st, spec), "sch": digest_sch(st)}
+        trace[-1]["impl"] = _observe(st, spec)
         return st
 
     saved = (impl.initialize, impl.assign, impl.plan, impl.flush_queues, impl.notify)
@@ -637,6 +646,8 @@ def compare(trace, model_out, fifo=False):
                 return {"at": i, "op": x, "model": "environment step not enabled in the model", "impl": "performed"}
             continue
         impl = x.get("impl", {})
+        if "unobservable" in impl:
+            return {"at": i, "op": op, "field": "State", "model": "state abstraction defined", "impl": "real State not readable by the harness: " + impl["unobservable"]}
         if not m.get("enabled", True):
             return {"at": i, "op": {k: v for k, v in x.items() if k != "impl"}, "model": "step not enabled", "impl": "performed"}
         if op == "deliver" and fifo and m.get("fifoStep") is False:
